@@ -53,6 +53,14 @@ def run(facts, tr, rep):
                     ok = True
                 if op in ("Ge", "Gt") and y == payload and mentions_field(tr, x, "timeout_duration"):
                     ok = True
+            trunc = calls_in(tr, payload, lambda x: x.name in ("as_millis", "as_secs", "as_micros", "subsec_millis", "subsec_micros", "from_millis",
+                                                               "from_secs", "from_micros", "as_secs_f32"))
+            divs = []      # float division is not truncating; integer duration math goes through the as_*/from_* calls above
+            rep.ob("C15.NONZERO-WAIT", skey(W, "ok-wait#%d" % (n - 1)), not trunc and not divs, g.where(i, j),
+                   "the answered wait is not rounded: a remaining wait can never collapse to Duration::ZERO, which means 'permit taken' to the caller"
+                   if not trunc and not divs else
+                   "the answered wait is truncated (%s): a sub-unit wait becomes Ok(ZERO), which the caller reads as 'permit taken' and admits "
+                   "the call without consuming a permit" % (trunc[0].name if trunc else "integer division"))
             rep.ob("C15.BOUND", skey(W, "ok-wait#%d" % (n - 1)), ok, g.where(i, j),
                    "a wait is answered only under wait <= timeout_duration" if ok else
                    "a wait longer than timeout_duration can be answered as Ok(wait): the caller would be held beyond its timeout")
